@@ -3774,7 +3774,7 @@ class AllConnGraph(nx.DiGraph):
         src_inds_list = self.nodes[node]['attrs'].src_inds_list
         if not src_inds_list:
             return None
-        elif len(src_inds_list) == 1:
+        elif len(src_inds_list) == 1 and src_inds_list[0]._flat_src:
             return src_inds_list[0].shaped_array()
         else:
             root = self.get_root(node)
@@ -3786,7 +3786,7 @@ class AllConnGraph(nx.DiGraph):
             arr = np.arange(shape_to_len(root_shape)).reshape(root_shape)
             for inds in src_inds_list:
                 arr = inds.indexed_val(arr)
-            return arr
+            return np.atleast_1d(arr).ravel()
 
     def convert_get(self, node, val, src_units, tgt_units, src_inds_list=(), units=None,
                     indices=None, get_remote=False):
